@@ -387,6 +387,22 @@ fn cases(tier: Tier) -> Vec<Case> {
             }
         }
     }
+    // ---- every bunch-counter value (a byte that may look like an ALPIDE control word) x chip forms
+    for bc in 0..=255u8 {
+        for form in 0..3u8 {
+            // 0: all chip-empty frames, 1: all header + one hit + trailer, 2: lane 3 empty, lanes 4,5 with hits
+            let lanes: Vec<LaneSpec> = [3u8, 4, 5]
+                .iter()
+                .map(|l| {
+                    let hits: &[Hit] = if form == 0 || (form == 2 && *l == 3) { &[] } else { &ha[0..1] };
+                    ib_lane(*l, bc, hits, None)
+                })
+                .collect();
+            let f = FrameSpec { lanes, nodata_before: false, split: None };
+            let want = expected_codes(&f, &none, &stave_key());
+            v.push(Case { label: format!("IB bunch counter {bc:#04x}, chip form {form}"), cfg: ib_cfg(), key: stave_key(), frames: vec![f], want: vec![Some(want)] });
+        }
+    }
     // ---- fatal-lane memory: sequences of frames, each lane normal (N) / fatal (F) / absent (A)
     let depth = if tier.is_thorough() { 3 } else { 2 };
     let mut fseqs: Vec<Vec<[u8; 3]>> = vec![vec![]];
@@ -412,7 +428,7 @@ fn cases(tier: Tier) -> Vec<Case> {
     fseqs.retain(|s| !s.is_empty());
     fseqs.sort();
     fseqs.dedup();
-    for s in fseqs {
+    for (s, base) in fseqs.iter().flat_map(|s| [0u8, 3, 6].into_iter().map(move |b| (s.clone(), b))) {
         let mut frames = Vec::new();
         let mut want = Vec::new();
         let mut fatal_before: BTreeSet<u8> = BTreeSet::new();
@@ -420,16 +436,16 @@ fn cases(tier: Tier) -> Vec<Case> {
             let mut lanes = Vec::new();
             for (l, x) in st.iter().enumerate() {
                 match x {
-                    0 => lanes.push(ib_lane(l as u8, 0x50, &[ha[0]], None)),
-                    1 => lanes.push(LaneSpec { id: words::ib_id(l as u8), chips: vec![], prefix: vec![alpide::APE_DET_TIMEOUT] }),
+                    0 => lanes.push(ib_lane(base + l as u8, 0x50, &[ha[0]], None)),
+                    1 => lanes.push(LaneSpec { id: words::ib_id(base + l as u8), chips: vec![], prefix: vec![alpide::APE_DET_TIMEOUT] }),
                     _ => {}
                 }
             }
             let f = FrameSpec { lanes, nodata_before: false, split: None };
             // a lane that announced a fatal state earlier and is present again, or announces it in this very frame
             // while all lanes are present: the documents do not say how such a frame is counted -> abstain
-            let fatal_now: BTreeSet<u8> = st.iter().enumerate().filter(|(_, x)| **x == 1).map(|(l, _)| l as u8).collect();
-            let present: BTreeSet<u8> = st.iter().enumerate().filter(|(_, x)| **x != 2).map(|(l, _)| l as u8).collect();
+            let fatal_now: BTreeSet<u8> = st.iter().enumerate().filter(|(_, x)| **x == 1).map(|(l, _)| base + l as u8).collect();
+            let present: BTreeSet<u8> = st.iter().enumerate().filter(|(_, x)| **x != 2).map(|(l, _)| base + l as u8).collect();
             let reappears = present.iter().any(|l| fatal_before.contains(l));
             if reappears || !fatal_now.is_empty() {
                 want.push(None);
@@ -441,7 +457,7 @@ fn cases(tier: Tier) -> Vec<Case> {
         }
         let mut cfg = ib_cfg();
         cfg.bc_step = 0x10;
-        v.push(Case { label: format!("fatal-lane sequence {:?} (0 normal, 1 fatal APE, 2 absent per lane)", s), cfg, key: stave_key(), frames, want });
+        v.push(Case { label: format!("fatal-lane sequence {:?} (0 normal, 1 fatal APE, 2 absent per lane; lanes {}..{})", s, base, base + 2), cfg, key: stave_key(), frames, want });
     }
     v
 }
